@@ -155,6 +155,8 @@ def cases(rng, tier, shard, nshards):
     n = {"quick": 500, "thorough": 5000}[tier]
     for k in range(n):
         x = shadowing_template(rng) if k % 3 == 0 else tplgen.gen_template(rng) if k % 3 == 1 else tplgen.gen_condition_template(rng, rng.randint(1, 5))
+        if k % 12 == 5:
+            x = tplgen.gen_chain_template(rng)      # long chains of conditions, declared in some order: the variants permute them
         x["vseed"] = rng.randrange(1 << 30)
         yield PERM, dict(x)
         yield EXTEND, dict(x)
